@@ -67,7 +67,7 @@ func loadKnown() []KnownFinding {
 func matchKnown(k []KnownFinding, prop string, v *sx.Violation) *KnownFinding {
 	for i := range k {
 		e := &k[i]
-		if e.State != "known" || e.Property != prop || e.Harness != v.Harness || e.Verdict != v.Kind || e.Label != v.Label {
+		if e.State != "known" || e.Property != prop || (e.Harness != "" && e.Harness != v.Harness) || e.Verdict != v.Kind || e.Label != v.Label {
 			continue
 		}
 		if e.Site != "" && e.Site != v.Facts["site"] {
@@ -239,6 +239,16 @@ func cmdCheck(args []string) int {
 			}
 			if len(unlisted) == 0 {
 				continue
+			}
+			for _, v := range unlisted {
+				kf := map[string]string{}
+				for k, f := range v.Facts {
+					if !strings.HasPrefix(k, "i:") {
+						kf[k] = f
+					}
+				}
+				b, _ := json.Marshal(kf)
+				fmt.Printf("  unlisted violation: harness=%s verdict=%s label=%q key-facts=%s\n", v.Harness, v.Kind, v.Label, b)
 			}
 			// replay up to 3 representatives of the group against the real build
 			confirmed := false
